@@ -663,9 +663,27 @@ func csSame(a, b csSt) bool {
 
 // complete drives the system to quiescence with a fixed fair policy; every step is logged.
 func (h *csH) complete(tr *vTrace, id string, adv bool, max int) {
+	needCheck := true
 	for i := 0; i < max; i++ {
 		before := h.project()
+		if needCheck {
+			// monitorIncoming runs check() before it reads the next message
+			needCheck = false
+			ca := csAct{A: "Check"}
+			if h.step(ca) == "" && !csSame(before, h.project()) {
+				tr.Emit(csLine{Tr: id, Act: csNorm(ca), St: h.project(), Obs: h.takeObs(), Auto: true, Adv: adv})
+				continue
+			}
+		}
 		var a csAct
+		if h.inflPc == "idle" {
+			// the processor goroutine is never starved by network traffic: it takes a delivered block as soon as there is one
+			pa := csAct{A: "ProcPop"}
+			if h.step(pa) == "" {
+				tr.Emit(csLine{Tr: id, Act: csNorm(pa), St: h.project(), Obs: h.takeObs(), Auto: true, Adv: adv})
+				continue
+			}
+		}
 		switch {
 		case h.inflPc == "popped":
 			a = csAct{A: "ProcCheck"}
@@ -694,6 +712,9 @@ func (h *csH) complete(tr *vTrace, id string, adv bool, max int) {
 		if skip != "" {
 			h.t.Logf("%s: completion step %v not enabled: %s", id, a.A, skip)
 			return
+		}
+		if a.A == "Deliver" {
+			needCheck = true
 		}
 		tr.Emit(csLine{Tr: id, Act: csNorm(a), St: h.project(), Obs: h.takeObs(), Auto: true, Adv: adv})
 	}
